@@ -187,7 +187,10 @@ def run_diff(case: Dict[str, Any]) -> Dict[str, Any]:
         cnt["c15_batch_runs"] += 1
         if len(rec.ev) != exp_steps:
             violate("runner-step-count", f"runner made {len(rec.ev)} steps over [{start},{spec2['sim']['end']}) with step {dt}, expected {exp_steps}")
-        elif exp_steps == n:
+        elif exp_steps == n and off == 0:
+            # (states and events are compared when the runner's configuration is the reference's: with an end time off the
+            # step grid the configurations differ, and the time-to-charge ranking caps its estimates by the time left
+            # until sim.end_time - a one-second difference there can legitimately rank stations differently)
             if fp_state(rp.s, ids=False) != ref_states[-1]:
                 violate("runner-state-differs", f"final state of LocalSimulationRunner.run differs from crank(1) x {n}", diff=diff_states(ref_full[-1], rp.s, ids=False))
             if rec.ev != ref.ev:
